@@ -8,7 +8,7 @@ it raise, does `open(..., "w")` succeed, does `write` succeed — is an INPUT
 (`Outcome`, `Wr`, `validateOk`, ...).  A theorem quantified over these inputs is
 quantified over "a failure injected at each step of the save".
 
-Source order modelled (local paths; the fsspec branch is outside):
+Source order modelled (local paths; the fsspec branch is `saveFsspec` below):
 
   check_valid_dump_format(format)                      -- formatOk
   path_fc = Path(path, mode="fc")                      -- pathFc
@@ -47,6 +47,15 @@ structure Env where
       (`os.path.isfile`) does not refuse it and `open(fifo, "w")` blocks until a reader appears; a FIFO stores no
       content, so nothing a FIFO "holds" can be destroyed — `FS` is about regular files only. -/
   nonFile  : List String := []
+  /-- path aliasing: spelling ↦ the file it stands for (`realpath`: a symbolic link in the last component, a relative
+      spelling of an absolute name, `a/../b`).  `check_overwrite` (`os.path.isfile(p.absolute)`), `Path(mode="fc")`
+      (`os.access`, `os.path.isfile`, `realpath(p/..)`) and `open(p.absolute, "w")` all FOLLOW the link, i.e. all look
+      at `resolve p` (tie: `tie_check_and_open_same_file`).  Spellings without an entry stand for themselves.  The other
+      facts of `Env` and the keys of `FS` are about RESOLVED names. -/
+  links    : List (String × String) := []
+
+/-- the explicit resolve function of the file-system model -/
+def Env.resolve (env : Env) (p : String) : String := ((env.links.find? (·.1 == p)).map (·.2)).getD p
 
 inductive Err
   | format          -- ValueError  "Unknown output format"
@@ -56,6 +65,7 @@ inductive Err
   | unserialisable  -- RepresenterError / "not JSON serializable" from the dumper
   | os              -- open(p, "w") itself failed (nothing created)
   | io              -- write/close failed after open succeeded (OS-level partial write)
+  | notImplemented  -- NotImplementedError "multifile=True not supported for fsspec paths" (fsspec branch only)
 deriving DecidableEq, Repr
 
 /-- result of a computation on the configuration (dump / serialise / read): fault point -/
@@ -91,8 +101,8 @@ def writeFile (fs : FS) (p s : String) (w : Wr) : Result :=
     else (.ok (), fs1.put p s)
 
 /-- `with open(p, "w") as f: f.write(<expr>)`: the text is computed AFTER the file was opened.
-    No step of the current `save` has this shape any more (fixes 8f1ace8, 0eab76f, 1bcbda4); kept for the
-    regression examples of the pre-fix orders in Props/C18. -/
+    No step of the LOCAL branches of the current `save` has this shape any more (fixes 8f1ace8, 0eab76f, 1bcbda4);
+    the fsspec branch (`saveFsspec`) still has it.  Also used for the regression examples of the pre-fix orders. -/
 def openThenWrite (fs : FS) (p : String) (d : Outcome) (w : Wr) : Result :=
   if !w.openOk then (.error .os, fs)
   else
@@ -191,6 +201,49 @@ def save (env : Env) (fs : FS) (i : Input) : Result :=
       | .fail e => (.error e, r.2)
       | .text s => writeFile r.2 i.path s i.wr
 
+/-! ### path aliasing: `save` on spellings = `save` on the files the spellings stand for -/
+
+def Sub.resolved (env : Env) (s : Sub) : Sub := { s with path := env.resolve s.path, src := env.resolve s.src }
+def Input.resolved (env : Env) (i : Input) : Input :=
+  { i with path := env.resolve i.path, subs := i.subs.map (Sub.resolved env) }
+
+/-- `save` with targets given as SPELLINGS (symbolic links, relative names): every check and every open goes
+    through `Env.resolve` -/
+def saveR (env : Env) (fs : FS) (i : Input) : Result := save env fs (i.resolved env)
+
+/-! ### the fsspec branch (`if fsspec_support: ... path_sw = Path(path, mode="sw") ... if path_sw.is_fsspec:`)
+
+Source order (jsonargparse/_core.py, `save`; `_util.Path.__init__`, block `elif not self._skip_check and is_fsspec`):
+
+  check_valid_dump_format(format)                         -- formatOk
+  path_sw = Path(path, mode="sw")                         -- PROBES the path: fsspec.open(abs, "w").open(); .close()
+                                                             i.e. creates / truncates it; FileNotFoundError, KeyError,
+                                                             PermissionError -> PathError (a TypeError) -> `pass` -> local
+                                                             branch, where Path(url, mode="fc") is a PathError
+  if multifile: raise NotImplementedError                 -- AFTER the probe
+  with fsspec.open(path, "w") as f:                       -- i.wr.openOk
+      f.write(self.dump(cfg, **dump_kwargs))              -- i.dump AFTER the open; i.wr.writeOk
+
+There is no `check_overwrite` on this branch: `overwrite` is not looked at. -/
+structure FInput where
+  path : String
+  overwrite : Bool := false
+  multifile : Bool := true
+  formatOk : Bool := true
+  /-- outcome of the probing open-for-writing inside `Path(path, mode="sw")` -/
+  probeOk : Bool := true
+  dump : Outcome
+  wr : Wr := {}
+deriving DecidableEq, Repr
+
+def saveFsspec (fs : FS) (i : FInput) : Result :=
+  if !i.formatOk then (.error .format, fs)
+  else if !i.probeOk then (.error .path, fs)
+  else
+    let fs1 := fs.put i.path ""
+    if i.multifile then (.error .notImplemented, fs1)
+    else openThenWrite fs1 i.path i.dump i.wr
+
 /-- the source order the definitions above implement, as data: compared by `decide` with the order
     extracted from /repo on every run (`Jap.Gen.SaveOrder`, theorems `tie_*` in Props/C18) -/
 def modelSingleSteps : List String := ["format", "path_fc", "check_overwrite", "dump", "open", "write"]
@@ -198,5 +251,11 @@ def modelMultiSteps : List String :=
   ["format", "path_fc", "check_overwrite", "clone", "strip_links", "validate", "save_paths", "dump", "open", "write"]
 def modelSubCfgSteps : List String := ["path_fc", "check_overwrite", "serialise", "open", "write"]
 def modelSubContentSteps : List String := ["path_fc", "check_overwrite", "get_content", "open", "write"]
+/-- the fsspec block of `save` (it follows "format"); `raise:NotImplementedError` is guarded by `if multifile` -/
+def modelFsspecSteps : List String :=
+  ["path_sw", "except:TypeError", "if:path_sw.is_fsspec", "if:multifile", "raise:NotImplementedError", "fsspec_open", "dump", "write", "return"]
+/-- what `Path(mode="..w..")` does to an fsspec path: it opens it with the r/w letters of the mode and closes it -/
+def modelFsspecProbe : List String :=
+  ["fsspec_mode = ''.join((c for c in mode if c in {'r', 'w'}))", "fsspec.open(abs_path, fsspec_mode)", "handle.open()", "handle.close()"]
 
 end Jap.Save
